@@ -791,3 +791,145 @@ def r06_9(ctx):
             else:
                 ctx.ok((short, callee.rsplit('::', 1)[-1], bb), sample=dict(emit=short, payload_at=S, header='every bit defined on the path'))
     ctx.need(n >= 8, f"payload fill sites in emit bodies (found {n})")
+
+
+# ------------------------------------------------------------------------------------------------
+# IPHC address modes: writer (mode bits + inline octets) vs reader size table
+# ------------------------------------------------------------------------------------------------
+
+def _decision_table(F, b, getters):
+    """reader: enumerate the paths of a pure table function that switches on a tuple of getter results and returns a
+    constant; -> {(v1, v2, ..): const}.  Path enumeration over the (acyclic) CFG with the getter results as symbols."""
+    # locals that hold getter results
+    sym = {}
+    for x in b.calls():
+        nm = (b.callee_name(x[1]) or '').rsplit('::', 1)[-1]
+        if nm in getters and x[3][1] == []:
+            sym[x[3][0]] = nm
+    # the tuple local: aggregate of those locals
+    tup = {}
+    for bi, bl in enumerate(b.blocks):
+        for s in bl['s']:
+            if s[0] == 'a' and s[2][0] == 'agg' and s[2][1].get('k') == 'tuple':
+                names = []
+                for op in s[2][2]:
+                    if is_place_op(op) and op[1][1] == [] and op[1][0] in sym:
+                        names.append(sym[op[1][0]])
+                if len(names) == len(s[2][2]) and names:
+                    tup[s[1][0]] = names
+    out = {}
+
+    def field_of(op, bi, si):
+        """which getter does this switch operand read"""
+        if not is_place_op(op):
+            return None
+        l, path = op[1]
+        if path == [] and l in sym:
+            return sym[l]
+        if l in tup and len(path) == 1 and path[0][0] == 'f':
+            return tup[l][path[0][1]]
+        if path == []:
+            ds = [d for d in b._all_defs().get(l, []) if d[3] == []]
+            if len(ds) == 1 and ds[0][2] == 'a' and ds[0][4][0] == 'use':
+                return field_of(ds[0][4][1], bi, si)
+        return None
+
+    def walk_(bi, env, depth):
+        if depth > 60:
+            return
+        bl = b.blocks[bi]
+        for s in bl['s']:
+            if s[0] == 'a' and s[1] == [0, []] and s[2][0] == 'use' and s[2][1][0] == 'k':
+                v = s[2][1][2]
+                if isinstance(v, dict) and 'v' in v:
+                    v = v['v']
+                env = dict(env)
+                env['_ret'] = v
+        t = bl['t']
+        if t[0] == 'ret':
+            if '_ret' in env and all(g in env for g in getters):
+                out[tuple(env[g] for g in getters)] = env['_ret']
+            return
+        if t[0] == 'switch':
+            g = field_of(t[1], bi, len(bl['s']))
+            if g is None:
+                for tb, _ in b.succ_edges(bi):
+                    walk_(tb, env, depth + 1)
+                return
+            taken = set()
+            for val, tb in t[2]:
+                taken.add(int(val))
+                if g in env and env[g] != int(val):
+                    continue
+                e2 = dict(env)
+                e2[g] = int(val)
+                walk_(tb, e2, depth + 1)
+            # otherwise edge: only with a value not listed (keep the already fixed value if any)
+            if g in env and env[g] not in taken:
+                walk_(t[3], env, depth + 1)
+            return
+        for tb, _ in b.succ_edges(bi):
+            walk_(tb, env, depth + 1)
+    walk_(0, {}, 0)
+    return out
+
+
+def _writer_paths(F, b, setters, cursor_name='idx'):
+    """writer: every path -> (last constant passed to each mode setter, total constant advance of the cursor)"""
+    L = [i for i, l in enumerate(b.locals) if l.get('name') == cursor_name]
+    res = set()
+
+    def walk_(bi, st, adv, depth, seen):
+        if depth > 400 or (bi, st, adv) in seen:
+            return
+        seen.add((bi, st, adv))
+        bl = b.blocks[bi]
+        for s in bl['s']:
+            if s[0] == 'a' and s[2][0] == 'bin' and s[2][1] == 'AddWithOverflow' and is_place_op(s[2][2]) and s[2][2][1] == [L[0], []] \
+                    and s[2][3][0] == 'k' and isinstance(s[2][3][2], int):
+                adv += s[2][3][2]
+        t = bl['t']
+        if t[0] == 'call':
+            nm = (b.callee_name(t[1]) or '').rsplit('::', 1)[-1]
+            if nm in setters and len(t[2]) >= 2:
+                c = const_int(simplify(F.origin.operand(b, t[2][1], bi, len(bl['s']))))
+                d = dict(st)
+                d[nm] = c
+                st = tuple(sorted(d.items()))
+        if t[0] == 'ret':
+            res.add((st, adv))
+            return
+        for tb, _ in b.succ_edges(bi):
+            if not b.blocks[tb]['cl']:
+                walk_(tb, st, adv, depth + 1, seen)
+    if L:
+        walk_(0, (), 0, 0, set())
+    return res
+
+
+@rule('R06.1c', ['C06', 'C20'], floor=10, clause='IPHC address modes: for every path of set_src_address / set_dst_address the number of in-line octets written equals what the reader\'s size table gives for the mode bits set on that path')
+def r06_1c(ctx):
+    F = ctx.F
+    for which, sizefn, getters, setters in (
+            ('dst', 'dst_address_size', ('m_field', 'dac_field', 'dam_field'), ('set_m_field', 'set_dac_field', 'set_dam_field')),
+            ('src', 'src_address_size', ('sac_field', 'sam_field'), ('set_sac_field', 'set_sam_field'))):
+        rd = _decision_table(F, ctx.method(IPHC, sizefn), getters)
+        ctx.need(len(rd) >= 6, f"reader table {sizefn} (found {len(rd)} entries)")
+        w = ctx.method(IPHC, f"set_{which}_address")
+        paths = _writer_paths(F, w, setters)
+        ctx.need(len(paths) >= 4, f"writer paths of set_{which}_address (found {len(paths)})")
+        for st, adv in sorted(paths, key=str):
+            d = dict(st)
+            if any(s_ not in d or d[s_] is None for s_ in setters):
+                ctx.bad(f"iphc|set_{which}_address|mode-undetermined", f"a path of set_{which}_address leaves a mode bit unset/non-constant ({d})", body=w)
+                continue
+            key = tuple(d[s_] for s_ in setters)
+            want = rd.get(key)
+            if want is None:
+                ctx.bad(f"iphc|set_{which}_address|mode-{key}", f"set_{which}_address sets mode bits {dict(zip(getters, key))}, a combination the reader table "
+                        f"{sizefn} does not decode", body=w)
+            elif want != adv:
+                ctx.bad(f"iphc|set_{which}_address|size-{key}", f"set_{which}_address writes {adv} in-line octets under mode bits {dict(zip(getters, key))} but the reader "
+                        f"({sizefn}) expects {want}: the address and everything after it are mis-decoded", body=w)
+            else:
+                ctx.ok((which, key, adv), sample=dict(address=which, mode=dict(zip(getters, key)), inline_octets=adv))
